@@ -10,7 +10,10 @@ pool (size c); rounds { freeze total+delta; read; workers insert into new; unfre
 and compared with (d) the statement itself: every row is readable from total afterwards, once — required whenever
 a <= c (in particular a = c, the only combination that arises since update_indices re-creates the index in the run
 pool); for a > c (only reachable without that reset) the loss predicted by c20_noindex_without_reset_large_refuted
-is counted and must agree between implementation and both models.
+is counted and must agree between implementation and both models.  (e) Index/NoIndexLife.v: the same history as a LIFE
+(rows assigned, index built in a pool of a threads by the given workers, one run in a pool of c) under AlwaysRebuild (a = c) resp.
+KeepIfSizeUnchanged (a != c: the run keeps the index built in pool a) must give the same total as (c).  Family protocol_big:
+150-500 rows in a field built by the workers of a pool of 4 / 8 / 16.
 
 Not a ./check entry point of its own: gen/props/c20.py (program level tie) may call run(tier, seed) and merge the
 result; `python3 -m gen.props.c20_index quick|thorough` runs it alone."""
@@ -24,9 +27,10 @@ PROP = "C20"
 POOLS = [1, 2, 3]
 BATCH = 40
 PRELUDE = ("From Coq Require Import List ZArith.\nFrom AV Require Import Index.IndexModel.\n"
-           "From AV Require Import Index.ConcIndex.\nFrom AV Require Import Index.NoIndexPools.\nImport ListNotations.\n"
+           "From AV Require Import Index.ConcIndex.\nFrom AV Require Import Index.NoIndexPools.\nFrom AV Require Import Index.NoIndexLife.\nImport ListNotations.\n"
            "Open Scope Z_scope.\n"
-           "Definition show (r : res cni) : out := match r with Ok f => RGet (Some (concat (snd f))) | _ => RPanic end.\n")
+           "Definition show (r : res cni) : out := match r with Ok f => RGet (Some (concat (snd f))) | _ => RPanic end.\n"
+           "Definition show_life (r : res lstate) : out := match r with Ok st => RGet (Some (concat (snd (l_index st)))) | _ => RPanic end.\n")
 
 
 def protocol_case(a, c, rows, rounds, par_round, reads, seed):
@@ -67,6 +71,29 @@ def gen_cases(tier, seed):
                     for k in range(0, c + 1):
                         rounds = [[(t, 50 + t) for t in range(k)]] if k else []
                         cases.append(protocol_case(a, c, rows, rounds, None, True, 0))
+    # hundreds of rows in a field built in a LARGE pool (4 / 8 / 16 workers: what Default::default() of a program with initial values
+    # or update_indices() leaves behind), run protocol in a small one; also the harmless directions
+    nbig = 16 if tier == "quick" else 120
+    v = 100000
+    for i in range(nbig):
+        a = rng.choice([4, 8, 16])
+        c = rng.choice([1, 2, 3, 4]) if i % 4 else a
+        if i % 7 == 3:
+            a, c = c, a
+        rows = []
+        for _ in range(rng.randint(150, 500)):
+            v += 1
+            rows.append((rng.randrange(a), v))
+        rounds = []
+        for _ in range(rng.randint(0, 3)):
+            r = []
+            for _ in range(rng.randint(1, 12)):
+                v += 1
+                r.append((rng.randrange(c), v))
+            rounds.append(r)
+        bc = protocol_case(a, c, rows, rounds, None, True, 0)
+        bc["family"] = "protocol_big"
+        cases.append(bc)
     nrand = 400 if tier == "quick" else 6000
     v = 100
     for _ in range(nrand):
@@ -105,10 +132,18 @@ def pools_expr(c, tidl):
         else:
             rounds.append(r)
     rs = "[" + "; ".join(sched(r) for r in rounds) + "]"
+    # the same history in the life model (Index/NoIndexLife.v): rows assigned, index built in a pool of a threads by the given workers
+    # (what Default::default() with initial values / update_indices() does), then one run in a pool of c threads
+    ids = "[" + "; ".join("%d" % v for _, v in c["rows"]) + "]"
+    tids = "[" + "; ".join("%d%%nat" % t for t, _ in c["rows"]) + "]"
     if c["a"] == c["c"]:
         # with the reset: the stored value (here: frozen, 5 shards, stale content) is irrelevant
-        return "show (run_index %d %s [VDyn %s] (true, [[91]; []; [92]; []; []]))" % (c["c"], sched(c["rows"]), rs)
-    return "show (run_index_noreset %d %s [VDyn %s] (cni_default %d))" % (c["c"], sched(c["rows"]), rs, c["a"])
+        return ("show (run_index %d %s [VDyn %s] (true, [[91]; []; [92]; []; []])); "
+                "show_life (life AlwaysRebuild [ESet %s; EBuild 5 []; ERun %d %s [VDyn %s]] (fresh_state 3))" % (
+                    c["c"], sched(c["rows"]), rs, ids, c["c"], tids, rs))
+    return ("show (run_index_noreset %d %s [VDyn %s] (cni_default %d)); "
+            "show_life (life KeepIfSizeUnchanged [ESet %s; EBuild %d %s; ERun %d [] [VDyn %s]] (fresh_state 1))" % (
+                c["c"], sched(c["rows"]), rs, c["a"], ids, c["a"], tids, c["c"], rs))
 
 
 def run(tier="quick", seed=0):
@@ -156,6 +191,11 @@ def run(tier="quick", seed=0):
             mism.append(dict(case=c, impl=ci, model=cm, spec="-", kind="model_differs", known=None,
                              what="correspondence IndexModel.v run0/I_cni vs CRelNoIndex on the pool protocol (a=%d c=%d)  [history: %s]" % (a, cc, line)))
             continue
+        if m1[1] != m1[0]:
+            mism.append(dict(case=c, impl=None, model=dict(pools=m1[0], life=m1[1]), spec="-", kind="model_differs", known=None,
+                             what="Index/NoIndexLife.v life (%s) and Index/NoIndexPools.v run_index%s disagree on the final total (a=%d c=%d)  [history: %s]" % (
+                                 "AlwaysRebuild" if a == cc else "KeepIfSizeUnchanged: index built in pool a kept by the run", "" if a == cc else "_noreset", a, cc, line)))
+            continue
         mt = m1[0]
         mtotal = None if mt in ("panic", "unsup") else (list(mt[1]) if ordered else sorted(mt[1]))
         itotal = list(gets[0][1]) if ordered else total
@@ -178,15 +218,17 @@ def run(tier="quick", seed=0):
                 if len(lossy_ex) < 3:
                     lossy_ex.append(dict(case=line, total=total, left_behind=rest))
     return dict(evaluations=len(cases), distinct_nontrivial=len(set(c19.case_line(c) for c in cases if c["rows"] or c["rounds"])),
-                rule="exhaustive: field pool a x run pool c in {1,2,3}^2, every placement of <= 3 rows over the a shards, one round with 0..c inserting workers; "
+                rule="big: field of 150-500 rows built by the workers of a pool of 4 / 8 / 16, protocol in a pool of 1-4 (and the reverse, and equal); exhaustive: field pool a x run pool c in {1,2,3}^2, every placement of <= 3 rows over the a shards, one round with 0..c inserting workers; "
                      "random: 0-6 rows, 0-4 rounds of 1-4 inserts (one round optionally as a real rayon scope in a pool of size c), a = c in 40%; "
                      "non-trivial = at least one row or round",
                 distribution=dict(dist), mismatches=mism,
                 samples=[dict(case=c19.case_line(c), impl=repr(i)[:300]) for c, i in list(zip(cases, impl))[-3:]],
                 extra=dict(index_level=dict(
-                    a_greater_c_histories=dist["a> c"], of_which_lose_rows_from_total=lossy, examples=lossy_ex,
-                    note="a > c cannot arise in a run since update_indices re-creates every index in the run pool (commit 949309d); "
-                         "the losses counted here reproduce c20_noindex_without_reset_large_refuted on the real CRelNoIndex")),
+                    a_greater_c_histories=dist["a> c"], of_which_lose_rows_from_total=lossy, examples=[dict(e, case=e["case"][:400], total=e["total"][:20], left_behind=e["left_behind"][:20]) for e in lossy_ex],
+                    big_histories=sum(1 for c in cases if c.get("family") == "protocol_big"),
+                    note="a > c does not arise in a run BECAUSE run() re-creates every index in the run pool first (commit 949309d) — that the generated run() really does so when "
+                         "indices built elsewhere are present is what the program-level family gen/c20_pools.py checks; the losses counted here reproduce "
+                         "c20_noindex_without_reset_large_refuted / c20_noindex_keep_prebuilt_large_pool_refuted on the real CRelNoIndex")),
                 trusted_base=["harness/ds_index creates each CRelNoIndex inside a rayon pool of the stated size and performs each serial insert on the stated worker (ThreadPool::broadcast)"],
                 assumptions=["one dynamic SCC visit per history at this level (several visits and the reset itself are covered by the theorem and by the program-level tie)"])
 
